@@ -32,6 +32,14 @@ lies between argv and the compared name; R3 parse receives the complete argv and
 command line assigns to it; R4 writes moved into helpers are unconditional / checked / truncating at every level, the
 build phase mutates nothing but the four outputs, phase errors are returned (no panic, no exit inside a phase), the SBOM
 path function is injective in (name, format); R7 the inputs are read from their own argument.
+Spelling independence (robustness round 3): the gate's "descriptor Ok" is any Ok-decision that needs a descriptor read to
+have succeeded (H.ok_requires) and the descriptor path is judged in the terms of every caller of the read (gate + both
+phases); the dispatch decisions include what a private function tested before returning the variant the phase call is
+matched on (H.implied_by_variant); phase arguments are read in normal form (H.norm_pruned) with the parse failure flowing
+into a handler that never returns (H.err_flows); the detect table is built per (outcome, variant of the detect result),
+the variant decided in the phase or in a helper's return table (H.decided_by); "written iff provided" is one function for
+plan / launch.toml / store.toml (provided_write: decision at any level of the write's call chain); mandatory variables read
+by a loop over a literal table zipped with its slots are read row by row (H.unroll_zip).
 Not decided: that exit terminates, byte-exact file contents, behaviour of the user's detect/build.
 """
 from .lib.discard import result_fates, verdict, diverges
@@ -72,6 +80,40 @@ def must_pass(fn, frm, to, via):
     return to not in fn.reachable(frm, stop=[via]) or via == frm
 
 
+def provided_write(E, prog, sl, host, site_bb, e, is_subject):
+    """write effect e of `host` happens iff an optional part of the result was provided.  (guarded, always, first, top):
+    guarded — a Some-decision on the part (is_subject) lies around the write at some level of its call chain (in the
+    phase, or in the private helper the write was moved to, its parameter read as what the phase passes), or the write
+    sits in the closure an Option combinator on the part runs with the payload; always — on the Some side every way to
+    success (of the deciding function, and from there up to the success site site_bb of host) passes the write; first —
+    the first chain level below the deciding one (for H.chain_always); top — the call in host the write goes through"""
+    from .lib.effects import guards_of
+    top = e.chain[0] if e.chain else e.call
+    levels = list(e.chain) + [e.call]
+    is_some = lambda cd: cd.kind == 'variant' and cd.enum == 'std::option::Option' and cd.outcome == frozenset({'Some'})
+    some = [cd for cd, views, subj in guards_of(E, e) if is_some(cd) and subj is not None and is_subject(subj)]
+    some += [cd for cd in conditions(host, top.bb, sl) if is_some(cd) and cd.subject is not None and is_subject(cd.subject)]
+    implied = any(x[0] == 'unwrap' and is_subject(x[1]) for x in e.implied)
+    top_must = any(x.bb == top.bb for x, _ in E.must_calls(host, [site_bb]))
+    guard_fn = None
+    if some:
+        cd = some[0]
+        guard_fn = cd.fn.path
+        lvl = next((c for c in levels if c.fn.path == cd.fn.path), None)
+        ends = [site_bb] if cd.fn.path == host.path else cd.fn.return_blocks()
+        always = lvl is not None and all(must_pass(cd.fn, cd.target, b, lvl.bb) for b in ends)
+        always = always and (cd.fn.path == host.path or top_must)
+    elif implied:
+        # the combinator call is on every path to success, and inside the closure it runs the write is
+        cl = next((c for c in levels if c.fn.kind == 'Closure'), None)
+        guard_fn = cl.fn.path if cl is not None else None
+        always = top_must and cl is not None and any(x.bb == cl.bb for x, _ in E.must_calls(cl.fn, [st.bb for st in E.sites(cl.fn)]))
+    else:
+        always = False
+    first = 1 + max([i for i, c in enumerate(levels) if c.fn.path == guard_fn] or [0])
+    return bool(some) or implied, always, first, top
+
+
 def run(ctx, rep):
     prog, sl = ctx.prog, ctx.slicer
     for r, d in (('R1', 'API gate dominates the phases; mismatch / unreadable descriptor exit with a code outside {0,100}'),
@@ -87,6 +129,8 @@ def run(ctx, rep):
     global SBOM_PATH
     SBOM_PATH = layer_roles.roles(prog, sl)['SBOM_PATH'] or 'libcnb::sbom::cnb_sbom_path'
     E = Effects(prog, sl)
+    # the phases are opaque here (their own effects are the subject of the detect / build tables below)
+    E_rt = Effects(prog, sl, vocab={RD: ('PHASE', None), RB: ('PHASE', None)})
     rt, rd, rb = prog.fn(RT), prog.fn(RD), prog.fn(RB)
     for f in (rt, rd, rb):
         rep.analysed(f)
@@ -105,8 +149,14 @@ def run(ctx, rep):
         # `a != b` not taken, either operand order, private helpers inlined, `x.unwrap_or_else(<handler that never
         # returns>)` == the Ok payload of x.
         conds = conditions_gated(prog, rt, c.bb, sl)
+        # ... plus what a private function decided before it returned the variant the phase call is matched on
+        # (`match Invocation::from_args(argv) { Detect(a) => detect(a), .. }`: from_args only builds Detect under name == "detect")
+        conds = conds + [x for cd in conds for x in H.implied_by_variant(prog, sl, cd)]
         is_read = lambda x: x[0] == 'call' and x[1] == READ_DESC
-        desc_ok = any(cd.kind == 'variant' and cd.outcome == frozenset({'Ok'}) and is_read(strip(cd.subject)) for cd in conds)
+        # "descriptor read Ok": an Ok-decision on a value that can only be Ok when a descriptor read was
+        # (`read_dir().and_then(|d| read_descriptor(&d))` is Ok only through the closure's read being Ok)
+        desc_ok = any(cd.kind == 'variant' and cd.outcome == frozenset({'Ok'}) and cd.subject is not None and
+                      any(is_read(r) for r in H.ok_requires(sl, cd.subject)) for cd in conds)
         api_ok = False
         for cd in conds:
             for x, y in H.eq_views(cd):
@@ -176,6 +226,19 @@ def run(ctx, rep):
                     rep.check(all(bad_code(v) for _, v in exits), 'R3', 'args/%s/exit' % phase, c.where(), 'usage error exits with %s' % [v[1] for _, v in exits],
                               'usage error handler exit codes: %s' % [vstr(v) for _, v in exits])
                     cl = None
+        handlers = []
+        if not good:
+            # general form: in normal form (helpers inlined, variant constructors read as literals, `x.unwrap_or_else(<handler
+            # that never returns>)` = the payload of x) the argument IS the Ok payload of parse(..), and a failure of that
+            # parse flows — through Err-propagating adapters / helper returns only — into such a handler
+            av0 = sl.operand(rt, c.args[1])
+            nv = H.norm_pruned(prog, sl, av0, keep=(parse,))
+            pc0 = strip(nv)
+            if nv[0] == 'unwrap' and pc0[0] == 'call' and pc0[1] == parse:
+                hs = [h for x, h in H.diverging_unwraps(prog, sl, av0, keep=(parse,)) if H.err_flows(sl, x, pc0)]
+                if hs:
+                    good = div = True
+                    av, cl, handlers = pc0, None, hs
         rep.check(good and div, 'R3', 'args/' + phase, c.where(), 'arguments = %s(argv) or a diverging error handler' % parse.split('::')[-2],
                   'phase arguments are not parse(argv) with a diverging error handler: ' + vstr(av)[:120])
         if good:
@@ -183,8 +246,7 @@ def run(ctx, rep):
             pa = H.norm(prog, sl, pc[2][0]) if pc[0] == 'call' and pc[1] == parse and pc[2] else ('unknown',)
             rep.check(H.is_argv(pa), 'R3', 'args/%s/argv' % phase, c.where(), '%s receives the complete argument vector' % parse.split('::')[-2],
                       '%s is not given the complete argv (surplus arguments can go unnoticed): %s' % (parse.split('::')[-2], vstr(pa)[:120]))
-        if div and cl is not None:
-            hf = prog.fns[cl[1]]
+        for hf in ([prog.fns[cl[1]]] if div and cl is not None else handlers):
             rep.analysed(hf)
             ex = exit_effects(prog, sl, hf)
             rep.check(bool(ex) and all(bad_code(v) for _, v in ex), 'R3', 'args/%s/exit' % phase, w(hf), 'usage error exits with %s' % [v[1] for _, v in ex],
@@ -227,18 +289,28 @@ def run(ctx, rep):
         rep.unproven('R1', 'gate/descriptor-path', w(rt), '%s not found' % READ_DESC)
     else:
         rep.analysed(rdesc)
-        reads = [e for e in E.expand(rdesc, 'may') if e.kind in ('READ', 'STAT_FOLLOW', 'STAT_NOFOLLOW', 'LIST', 'CWD')]
+        FS_READS = ('READ', 'STAT_FOLLOW', 'STAT_NOFOLLOW', 'LIST', 'CWD')
+        own = [e for e in E.expand(rdesc, 'may') if e.kind in FS_READS]
+        # the file-system reads of the descriptor read in the terms of whoever calls it — the gate and both phases (the
+        # directory may be looked up by the read itself or be handed to it by its callers: same reads, same paths)
+        in_read = lambda e: any(getattr(l, 'call', l).name == READ_DESC for l in e.chain)
+        reads = []
+        for ent, EE in ((rt, E_rt), (rd, E), (rb, E)):
+            reads.extend((ent, e) for e in EE.expand(ent, 'may') if e.kind in FS_READS and in_read(e))
         def is_bpdir(v):
             while v[0] == 'call' and len(v[2]) == 1 and v[1].endswith(H.CONVERTERS):      # String -> PathBuf
                 v = strip(v[2][0])
             return v[0] == 'call' and v[1] == 'std::env::var' and bool(v[2]) and strip(v[2][0]) == ('const', 'CNB_BUILDPACK_DIR')
-        cps = L.comps(sl.inline_deep(reads[0].path), is_bpdir) if len(reads) == 1 and reads[0].kind == 'READ' else None
-        seen_as = [(e.kind, vstr(sl.inline_deep(e.path))[:70] if e.path else '') for e in reads[:3]]
-        if len(reads) == 1 and reads[0].kind == 'READ' and cps is None:
-            rep.unproven('R1', 'gate/descriptor-path', reads[0].where(), 'cannot read the descriptor path as <CNB_BUILDPACK_DIR>/<name>: %s' % seen_as)
+        shape = len(own) == 1 and own[0].kind == 'READ' and bool(reads) and all(e.kind == 'READ' for _, e in reads) \
+            and {ent.path for ent, _ in reads} == {rt.path, rd.path, rb.path}
+        cps = [L.comps(H.norm(prog, sl, e.path), is_bpdir) for _, e in reads] if shape else []
+        seen_as = [(e.kind, vstr(sl.inline_deep(e.path))[:70] if e.path else '') for e in (own + [e for _, e in reads])[:4]]
+        if shape and any(c is None for c in cps):
+            bad = next(e for (_, e), c in zip(reads, cps) if c is None)
+            rep.unproven('R1', 'gate/descriptor-path', bad.where(), 'cannot read the descriptor path as <CNB_BUILDPACK_DIR>/<name>: %s' % seen_as)
         else:
-            rep.check(cps == ('buildpack.toml',), 'R1', 'gate/descriptor-path', reads[0].where() if reads else w(rdesc), 'the descriptor is <CNB_BUILDPACK_DIR>/buildpack.toml',
-                      'the descriptor is looked for in %s' % seen_as)
+            rep.check(shape and all(c == ('buildpack.toml',) for c in cps), 'R1', 'gate/descriptor-path', own[0].where() if own else w(rdesc),
+                      'the descriptor is <CNB_BUILDPACK_DIR>/buildpack.toml', 'the descriptor is looked for in %s' % seen_as)
     for phase, n in (('Detect', 3), ('Build', 4)):
         pf = prog.fn('libcnb::runtime::%sArgs::parse' % phase)
         rep.analysed(pf)
@@ -280,8 +352,6 @@ def run(ctx, rep):
     is_phase_result = lambda r: r[0] in ('call', 'phi') and all(y[0] == 'call' and y[1] in (RD, RB) for y in alts(r))
     mentions_phase = lambda v: v is not None and any(x[0] == 'call' and x[1] in (RD, RB) for x in walk(v))
     err_phase = lambda cd: cd.kind == 'variant' and cd.outcome == frozenset({'Err'}) and mentions_phase(cd.subject)
-    # the phases are opaque here (their own effects are the subject of the detect / build tables below)
-    E_rt = Effects(prog, sl, vocab={RD: ('PHASE', None), RB: ('PHASE', None)})
     may_rt = E_rt.expand(rt, 'may')
     rows = []          # (exit call, kind 'const'|'result'|'other', value, conds at the defining site, handler closure | None)
     seen_exit = set()
@@ -381,7 +451,8 @@ def run(ctx, rep):
             continue
         c = sites[0]
         # ---- R7 ----------------------------------------------------------------------------------------
-        must = E.expand(host, 'must', site_bbs=[c.bb])
+        # (a loop over a literal table of (variable, error) rows zipped with the slots it fills is read row by row)
+        must = H.unroll_zip(E, prog, E.expand(host, 'must', site_bbs=[c.bb]))
         envs = {}
         for e in must:
             if e.kind == 'ENV_READ' and e.path is not None and e.path[0] == 'const':
@@ -415,51 +486,79 @@ def run(ctx, rep):
                 rep.check(a[0] == 'field' and a[2] == src and a[1][0] == 'param' and a[1][2] == 1, 'R7', '%s/input/%s/source' % (m, fld), c.where(),
                           '%s is read from args.%s' % (fld, src), '%s is read from %s, not from args.%s' % (fld, vstr(a)[:80], src))
     # ---- R4 detect table ---------------------------------------------------------------------------------
+    # One row per (success outcome, variant of the detect result).  The variant is decided by a `match` in the phase
+    # itself, or inside a private helper that maps the result to what the phase then uses (`let (code, plan) =
+    # result.into_code_and_plan()`): such a helper's return table is read row by row as if it had been matched at the call
+    # site (H.decided_by), values and guards rewritten with the row's value, effects under a refuted guard dropped.
+    ENUM = 'libcnb::detect::InnerDetectResult'
     outs = outcomes(E, rd)
-    seen = set()
+    cases = []        # (arm, success value, MUTATING effects after the decision, MUTATING effects before it, outcome, view)
     for o in outs:
-        v = strip(o.value)
+        mut = [e for e in o.may if e.kind in MUTATING]
+        dec = [(c, s, lv) for c, s, lv in o.decisions() if c.enum == ENUM]
+        if dec:
+            arm = next(iter(dec[-1][0].outcome)) if len(dec[-1][0].outcome) == 1 else '?'
+            after = {id(e) for e in o.region(dec[-1][0], dec[-1][2], o.may)}
+            cases.append((arm, o.value, [e for e in mut if id(e) in after], [e for e in mut if id(e) not in after], o, lambda x: x))
+            continue
+        is_detect = lambda x: any(y[0] == 'call' and y[1] == 'libcnb::buildpack::Buildpack::detect' for y in walk(x))
+        split = [(X, rows) for X, rows in H.decided_by(prog, sl, o.value, ENUM, rd) if all(is_detect(r[2]) for r in rows)]
+        if len(split) != 1:
+            cases.append(('?', o.value, [], mut, o, lambda x: x))
+            continue
+        X, rows = split[0]
+        xbb = X[3][1]
+        after = [e for e in mut if e.level is not None and (e.level > 0 or (e.level == 0 and e.level_bb != xbb and rd.dominates(xbb, e.level_bb)))]
+        ids = {id(e) for e in after}
+        for arm, rowv, _subj in rows:
+            view = (lambda X, rowv: lambda x: H.replace_norm(sl, x, X, rowv) if x is not None else None)(X, rowv)
+            def refuted(e):
+                for cd, views, subj in guards_of(E, e):
+                    y = view(subj) if cd.kind == 'variant' and subj is not None else None
+                    while y is not None and y[0] in ('unwrap', 'updated'):
+                        y = y[1]
+                    if y is not None and y[0] == 'agg' and y[2] is not None and y[1] == cd.enum and y[2] not in cd.outcome:
+                        return True
+                    if cd.kind == 'int' and views:
+                        # `match code { 100 => .., _ => .. }` on the row's constant
+                        k = strip(view(views[0][0]))
+                        if k[0] == 'const' and isinstance(k[1], int) and not isinstance(k[1], bool):
+                            oc = cd.outcome
+                            if (isinstance(oc, int) and oc != k[1]) or (isinstance(oc, tuple) and oc[0] == 'not' and k[1] in oc[1]):
+                                return True
+                return False
+            cases.append((arm, view(o.value), [e for e in after if not refuted(e)], [e for e in mut if id(e) not in ids], o, view))
+    seen = set()
+    for arm, val, wr, _early, o, view in cases:
+        v = strip(val)
         code = dict(v[3]).get('0') if v[0] == 'agg' and v[2] == 'Ok' else None
-        dec = [(c, s, lv) for c, s, lv in o.decisions() if c.enum == 'libcnb::detect::InnerDetectResult']
-        arm = next(iter(dec[-1][0].outcome)) if dec and len(dec[-1][0].outcome) == 1 else '?'
         seen.add(arm)
         site = o.sites[-1]
         where = '%s:%d' % (rd.file, rd.line)
         if arm == 'Fail':
             rep.check(code == ('const', 100), 'R4', 'detect/Fail/code', where, 'Fail => Ok(100)', 'detect Fail returns %s' % vstr(v)[:60])
-            wr = [e for e in o.region(dec[-1][0], dec[-1][2], o.may) if e.kind in MUTATING]
             rep.check(not wr, 'R4', 'detect/Fail/no-write', where, 'nothing is written when detection fails', 'a failed detection can write: %s' % [(e.kind, vstr(e.path)[:60]) for e in wr[:2]])
         elif arm == 'Pass':
             rep.check(code == ('const', 0), 'R4', 'detect/Pass/code', where, 'Pass => Ok(0)', 'detect Pass returns %s' % vstr(v)[:60])
-            wr = [e for e in o.region(dec[-1][0], dec[-1][2], o.may) if e.kind in MUTATING]
             ok = len(wr) == 1 and wr[0].kind == 'WRITE'
             if ok:
                 e = wr[0]
                 pv = strip(e.path)
                 ok_path = pv[0] == 'field' and pv[2] == 'build_plan_path' and pv[1][0] == 'param' and pv[1][2] == 1
-                top = e.chain[0] if e.chain else e.call
-                cds = conditions(rd, top.bb, sl)
-                some = [cd for cd in cds if cd.kind == 'variant' and cd.enum == 'std::option::Option' and cd.outcome == frozenset({'Some'})
-                        and strip(cd.subject)[0] == 'field' and strip(cd.subject)[2] == 'build_plan']
-                data_ok = any(x[0] == 'field' and x[2] == 'build_plan' for x in walk(e.args[1]))
-                # `build_plan.map(|p| write(p, ..)).transpose()?`: the closure runs exactly when the plan is Some
-                is_plan = lambda x: strip(x)[0] == 'field' and strip(x)[2] == 'build_plan'
-                implied = any(x[0] == 'unwrap' and is_plan(x[1]) for x in e.implied)
-                rep.check(ok_path and (bool(some) or implied) and data_ok, 'R4', 'detect/Pass/plan-write', e.where(), 'build plan written to args.build_plan_path iff Some',
-                          'plan write: path_ok=%s guarded_by_Some=%s data_ok=%s' % (ok_path, bool(some) or implied, data_ok))
-                if some:
-                    rep.check(must_pass(rd, some[0].target, site.bb, top.bb), 'R4', 'detect/Pass/plan-write-must', e.where(),
-                              'with a plan, Ok(0) is only reached through the write', 'Ok(0) can be returned with a plan without writing it')
-                elif implied:
-                    levels = list(e.chain) + [e.call]
-                    cl = next((x for x in levels if x.fn.kind == 'Closure'), None)
-                    always = any(x.bb == top.bb for x, _ in E.must_calls(rd, [site.bb])) and cl is not None and \
-                        any(x.bb == cl.bb for x, _ in E.must_calls(cl.fn, [st.bb for st in E.sites(cl.fn)]))
+                data_ok = any(x[0] == 'field' and x[2] == 'build_plan' for x in walk(view(e.args[1])))
+                # "iff Some": a Some-decision on the plan around the write — in the phase or in the private helper the write
+                # was moved to — or the write sits in the closure an Option combinator on the plan runs with the payload
+                # (`build_plan.map(|p| write(p, ..)).transpose()?`); with a plan, success is only reached through the write
+                is_plan = lambda x: strip(view(x))[0] == 'field' and strip(view(x))[2] == 'build_plan'
+                guarded, always, first, top = provided_write(E, prog, sl, rd, site.bb, e, is_plan)
+                rep.check(ok_path and guarded and data_ok, 'R4', 'detect/Pass/plan-write', e.where(), 'build plan written to args.build_plan_path iff Some',
+                          'plan write: path_ok=%s guarded_by_Some=%s data_ok=%s' % (ok_path, guarded, data_ok))
+                if guarded:
                     rep.check(always, 'R4', 'detect/Pass/plan-write-must', e.where(),
                               'with a plan, Ok(0) is only reached through the write', 'Ok(0) can be returned with a plan without writing it')
                 fa = verdict(result_fates(prog, top.fn, top))
                 rep.check(fa == 'ok', 'R4', 'detect/Pass/plan-write-propagated', e.where(), 'write error propagated', 'write result: ' + fa)
-                why = H.chain_always(E, prog, e) + ([] if e.call.name in H.TRUNCATING else ['%s does not replace an existing file' % e.call.name])
+                why = H.chain_always(E, prog, e, first) + ([] if e.call.name in H.TRUNCATING else ['%s does not replace an existing file' % e.call.name])
                 rep.check(not why, 'R4', 'detect/Pass/plan-write-helper', e.where(), 'the helper writes (replacing the file) whenever it succeeds',
                           'the write of the build plan inside its helper: %s' % '; '.join(why))
             else:
@@ -469,11 +568,8 @@ def run(ctx, rep):
     rep.check(seen == {'Fail', 'Pass'}, 'R4', 'detect/arms', w(rd), 'outcomes for Fail and Pass', 'detect outcomes cover arms %s' % sorted(seen))
     # ... and on the whole way to either result (not only after the decision) nothing in the file system is changed but the
     # plan file by that one write: a failed detection leaves a pre-existing plan file exactly as it was
-    for o in outs:
-        dec = [c for c, s_, lv in o.decisions() if c.enum == 'libcnb::detect::InnerDetectResult']
-        arm = next(iter(dec[-1].outcome)) if dec and len(dec[-1].outcome) == 1 else '?'
-        after = {id(e) for e in o.region(dec[-1], [lv for c, s_, lv in o.decisions() if c is dec[-1]][-1], o.may)} if dec else set()
-        early = [e for e in o.may if e.kind in MUTATING and id(e) not in after and not H.elsewhere(e.path, rd)]
+    for arm, _val, _wr, before, o, _view in cases:
+        early = [e for e in before if not H.elsewhere(e.path, rd)]
         rep.check(not early, 'R4', 'detect/%s/no-other-mutation' % arm, early[0].where() if early else w(rd), 'nothing is written or removed before the detection result is known',
                   'the detect phase changes the file system whatever the result: %s' % [(e.kind, vstr(e.path)[:60] if e.path else '') for e in early[:3]])
     # ---- R4 build table ----------------------------------------------------------------------------------
@@ -504,38 +600,16 @@ def run(ctx, rep):
                 rep.violated('R4', 'build/' + fname, w(rb), '%d writes of %s' % (len(es), fname))
                 continue
             e = es[0]
-            top = e.chain[0] if e.chain else e.call
             data_ok = res_field(e.args[1], fld)
             # "only if Some": a Some-decision on result.<fld> around the write — in libcnb_runtime_build or in the
             # private helper the write was moved to — or the write sits in a closure that an Option combinator on
-            # result.<fld> runs with the payload (`launch.map_or(Ok(()), |l| write(l, ..))`)
-            from .lib.effects import guards_of
-            some = [(cd, subj) for cd, views, subj in guards_of(E, e) if cd.kind == 'variant' and cd.enum == 'std::option::Option'
-                    and cd.outcome == frozenset({'Some'}) and subj is not None and res_field(subj, fld, exact=True)]
-            some += [(cd, cd.subject) for cd in conditions(rb, top.bb, sl) if cd.kind == 'variant' and cd.enum == 'std::option::Option'
-                     and cd.outcome == frozenset({'Some'}) and res_field(cd.subject, fld, exact=True)]
-            implied = any(x[0] == 'unwrap' and res_field(x[1], fld, exact=True) for x in e.implied)
+            # result.<fld> runs with the payload (`launch.map_or(Ok(()), |l| write(l, ..))`);
             # "if Some": on the Some side every way to success passes the write (or the combinator always runs the closure)
-            top_must = any(x.bb == top.bb for x, _ in E.must_calls(rb, [site.bb]))
-            levels = list(e.chain) + [e.call]
-            if some:
-                cd = some[0][0]
-                lvl = next((c for c in levels if c.fn.path == cd.fn.path), None)
-                ends = [site.bb] if cd.fn.path == rb.path else cd.fn.return_blocks()
-                always = lvl is not None and all(must_pass(cd.fn, cd.target, b, lvl.bb) for b in ends)
-                always = always and (cd.fn.path == rb.path or top_must)
-            elif implied:
-                # the combinator call is on every path to success, and inside the closure it runs the write is
-                cl = next((c for c in levels if c.fn.kind == 'Closure'), None)
-                always = top_must and cl is not None and any(x.bb == cl.bb for x, _ in E.must_calls(cl.fn, [st.bb for st in E.sites(cl.fn)]))
-            else:
-                always = False
-            ok = (bool(some) or implied) and data_ok and always and verdict(result_fates(prog, top.fn, top)) == 'ok'
+            guarded, always, first, top = provided_write(E, prog, sl, rb, site.bb, e, lambda x, fld=fld: res_field(x, fld, exact=True))
+            ok = guarded and data_ok and always and verdict(result_fates(prog, top.fn, top)) == 'ok'
             rep.check(ok, 'R4', 'build/' + fname, e.where(), '%s written iff result.%s is Some, error propagated' % (fname, fld),
-                      '%s: guarded_by_Some(%s)=%s data_from_result=%s always_on_Some=%s' % (fname, fld, bool(some) or implied, data_ok, always))
+                      '%s: guarded_by_Some(%s)=%s data_from_result=%s always_on_Some=%s' % (fname, fld, guarded, data_ok, always))
             # the same inside the helper(s) the write goes through: unconditional, checked, and replacing a file that exists
-            guard_fn = some[0][0].fn.path if some else next((c.fn.path for c in levels if c.fn.kind == 'Closure'), None) if implied else None
-            first = 1 + max([i for i, c in enumerate(levels) if c.fn.path == guard_fn] or [0])
             why = H.chain_always(E, prog, e, first) + ([] if e.call.name in H.TRUNCATING else ['%s does not replace an existing file' % e.call.name])
             rep.check(not why, 'R4', 'build/%s/helper' % fname, e.where(), 'the helper writes (replacing the file) whenever it succeeds',
                       'the write of %s inside its helper: %s' % (fname, '; '.join(why)))
